@@ -115,7 +115,10 @@ def handle(c):
                 what = {'state': 'converged outputs', 'inputs': 'inputs'}.get(key[0], 'compute_totals %s' % (key[1:],))
                 out['msg'] = '%s change under solver scaling (variant %d, %s): %s | cfg=%s' % (
                     what, k, 'exact' if exact else 'tol %g' % tol, why, cfg)
-                out['sig'] = 'scaling:%s:%s' % (key[0], cfg.get('lin'))
+                out['sig'] = 'scaling:%s:%s:%s' % (key[0], cfg.get('lin'), key[1] if len(key) > 1 else '')
+                if key[0] == 'J' and key[1] == 'rev' and str(cfg.get('lin', '')).startswith('direct') \
+                        and cfg.get('jac') is None:
+                    out['sig'] = 'direct-rev-nonassembled-scaled'
         if k == 0:
             flat2 = sg.flatten(s2)
             arrays = scaling_arrays(obs['prob'], s2, flat2)
